@@ -413,20 +413,43 @@ const RT_PASSWORD: &str = "rt\u{00A0}pässw\u{2003}rd";
 
 pub struct RtKey {
     pub name: &'static str,
+    /// 0 = short-term, 1 = long-term MD5, 2 = long-term SHA-256
+    pub kind: u8,
+    pub realm: &'static str,
+    pub password: &'static str,
     pub lib: HMACKey,
     pub raw: Vec<u8>,
 }
 
-fn rt_keys() -> Vec<RtKey> {
+/// the library key for a credential of the same kind as `k` with another user / password
+fn lib_key(kind: u8, user: &str, realm: &str, password: &str) -> HMACKey {
     use stun_rs::{Algorithm, AlgorithmId};
+    match kind {
+        0 => HMACKey::new_short_term(password).unwrap(),
+        1 => HMACKey::new_long_term(user, realm, password, Algorithm::from(AlgorithmId::MD5)).unwrap(),
+        _ => HMACKey::new_long_term(user, realm, password, Algorithm::from(AlgorithmId::SHA256)).unwrap(),
+    }
+}
+
+// realm written with its quotes (they are then part of the string the key is derived from) and
+// strings that are not in Unicode normalization form C (OpaqueString enforcement composes them)
+const RT_REALM_QUOTED: &str = "\"rt.example.org\"";
+const RT_REALM_NFD: &str = "re\u{301}alm.example";
+const RT_PASSWORD_NFD: &str = "se\u{301}same\u{212B}pa\u{308}ss";
+
+fn rt_keys() -> Vec<RtKey> {
+    let mk = |name: &'static str, kind: u8, realm: &'static str, password: &'static str| RtKey {
+        name, kind, realm, password,
+        lib: lib_key(kind, RT_USER, realm, password),
+        raw: if kind == 0 { obs::st_key(password) } else { obs::lt_key(RT_USER, realm, password, kind as u16) },
+    };
     vec![
-        RtKey { name: "st", lib: HMACKey::new_short_term(RT_PASSWORD).unwrap(), raw: obs::st_key(RT_PASSWORD) },
-        RtKey { name: "lt-md5",
-                lib: HMACKey::new_long_term(RT_USER, RT_REALM, RT_PASSWORD, Algorithm::from(AlgorithmId::MD5)).unwrap(),
-                raw: obs::lt_key(RT_USER, RT_REALM, RT_PASSWORD, 1) },
-        RtKey { name: "lt-sha256",
-                lib: HMACKey::new_long_term(RT_USER, RT_REALM, RT_PASSWORD, Algorithm::from(AlgorithmId::SHA256)).unwrap(),
-                raw: obs::lt_key(RT_USER, RT_REALM, RT_PASSWORD, 2) },
+        mk("st", 0, "", RT_PASSWORD),
+        mk("lt-md5", 1, RT_REALM, RT_PASSWORD),
+        mk("lt-sha256", 2, RT_REALM, RT_PASSWORD),
+        mk("lt-md5-quoted-realm", 1, RT_REALM_QUOTED, RT_PASSWORD),
+        mk("lt-sha256-nfd", 2, RT_REALM_NFD, RT_PASSWORD_NFD),
+        mk("st-nfd", 0, "", RT_PASSWORD_NFD),
     ]
 }
 
@@ -450,6 +473,8 @@ fn class_str(c: stun_rs::MessageClass) -> &'static str {
 fn strip_helpers(kind: &str, v: &Value) -> Value {
     if kind == "UserHash" {
         json!({"h": v["h"]})
+    } else if kind == "Realm" || kind == "Nonce" {
+        json!({"s": v["s"]})
     } else {
         v.clone()
     }
@@ -659,7 +684,7 @@ fn cmd_roundtrip(args: &[String]) {
             rng.fill(&mut txid);
             let method: u16 = if rng.random_range(0..3) == 0 { rng.random_range(0..0x1000) } else { *[1u16, 3, 4, 6, 7, 8, 9][rng.random_range(0..7)..].first().unwrap() };
             emit(method, rng.random_range(0..4), txid, &attrs, TAILS[rng.random_range(0..TAILS.len())],
-                 rng.random_range(0..3), &mut count);
+                 rng.random_range(0..keys.len()), &mut count);
         }
     }
     drop(emit);
@@ -772,6 +797,11 @@ fn cmd_ignorable(args: &[String]) {
         }
         if pos.is_empty() { continue; }
         let logical: Vec<Value> = attrs.iter().map(|(k, v)| json!({"kind":k,"fields":strip_helpers(k, v)})).collect();
+        // what the canonical bytes decode to, as the library itself shows it (Debug form)
+        let canon_dbg = match catch_unwind(AssertUnwindSafe(|| stun_rs::MessageDecoderBuilder::default().build().decode(&bytes))) {
+            Ok(Ok((m0, _))) => format!("{:?}", m0.attributes()),
+            _ => String::from("<canonical bytes do not decode>"),
+        };
         for v in 0..variants {
             let mut alt = bytes.clone();
             for (ix, mb) in &pos {
@@ -780,12 +810,23 @@ fn cmd_ignorable(args: &[String]) {
             }
             let dec = stun_rs::MessageDecoderBuilder::default().build();
             let r = catch_unwind(AssertUnwindSafe(|| dec.decode(&alt)));
-            let (dres, dattrs, dsize) = match r {
-                Err(_) => ("panic", json!([]), -1i64),
-                Ok(Err(_)) => ("err", json!([]), -1),
-                Ok(Ok((m, sz))) => ("ok", Value::Array(m.attributes().iter().map(zoo::project).collect()), sz as i64),
+            let (dres, dattrs, dsize, same_dbg, reenc_same) = match r {
+                Err(_) => ("panic", json!([]), -1i64, false, false),
+                Ok(Err(_)) => ("err", json!([]), -1, false, false),
+                Ok(Ok((m, sz))) => {
+                    // ignored on receipt: the decoded value is indistinguishable from the canonical one,
+                    // also for == / Debug; zero on transmit: sending it again gives the canonical bytes
+                    let same_dbg = format!("{:?}", m.attributes()) == canon_dbg;
+                    let mut again = vec![0u8; bytes.len() + 16];
+                    let reenc_same = match catch_unwind(AssertUnwindSafe(|| enc.encode(&mut again, &m))) {
+                        Ok(Ok(n)) => n == bytes.len() && again[..n] == bytes[..],
+                        _ => false,
+                    };
+                    ("ok", Value::Array(m.attributes().iter().map(zoo::project).collect()), sz as i64, same_dbg, reenc_same)
+                }
             };
             writeln!(f, "{}", json!({"op":"ign","method":1,"cls":"success","txid":bytes_json(&txid),"attrs":logical,
+                "same_dbg":same_dbg,"reenc_same":reenc_same,
                 "bytes":bytes_json(&bytes),"alt":bytes_json(&alt),"dec":dres,"dec_attrs":dattrs,"dec_size":dsize,
                 "opaque":{"MessageIntegrity":[],"MessageIntegritySha256":[],"Fingerprint":[]}})).unwrap();
             count += 1;
@@ -875,7 +916,7 @@ fn cmd_faults(args: &[String]) {
             (k.to_string(), zoo::generate(k, &mut rng, usize::MAX))
         }).collect();
         let tail = tails[i % tails.len()];
-        let key = &keys[i % 3];
+        let key = &keys[i % keys.len()];
         let mut txid = [0u8; 12];
         rng.fill(&mut txid);
         let mut b = stun_rs::StunMessageBuilder::new(stun_rs::methods::BINDING, class_of((i % 4) as u8))
@@ -909,18 +950,16 @@ fn cmd_faults(args: &[String]) {
             let (base_ok, _) = accepted(&bytes, t, &key.lib);
             // wrong keys differing in one character
             let wrong: Vec<bool> = if what == "integrity" {
-                let pw = RT_PASSWORD;
-                let variants = [format!("{}x", pw), pw[1..].to_string(), pw.replacen('r', "R", 1), format!(" {}", pw)];
-                variants.iter().map(|w| {
-                    let k = match key.name {
-                        "st" => HMACKey::new_short_term(w.as_str()).unwrap(),
-                        "lt-md5" => HMACKey::new_long_term(RT_USER, RT_REALM, w.as_str(), Algorithm::from(AlgorithmId::MD5)).unwrap(),
-                        _ => HMACKey::new_long_term(RT_USER, RT_REALM, w.as_str(), Algorithm::from(AlgorithmId::SHA256)).unwrap(),
-                    };
-                    accepted(&bytes, t, &k).0
-                }).chain([
-                    // same password, other user / realm / algorithm for long-term keys
-                    accepted(&bytes, t, &HMACKey::new_long_term("rt-usex", RT_REALM, RT_PASSWORD, Algorithm::from(AlgorithmId::MD5)).unwrap()).0 && key.name != "st",
+                let pw = key.password;
+                let first = pw.chars().next().map(|c| c.len_utf8()).unwrap_or(0);
+                let variants = [format!("{}x", pw), pw[first..].to_string(), pw.replacen('s', "S", 1), format!(" {}", pw)];
+                variants.iter().map(|w| accepted(&bytes, t, &lib_key(key.kind, RT_USER, key.realm, w.as_str())).0).chain([
+                    // same password, other user for long-term keys
+                    key.kind != 0 && accepted(&bytes, t, &lib_key(key.kind, "rt-usex", key.realm, key.password)).0,
+                    // the realm written without / with surrounding quotes is another realm
+                    key.kind != 0 && accepted(&bytes, t, &lib_key(key.kind, RT_USER,
+                        &(if key.realm.starts_with('"') { key.realm.trim_matches('"').to_string() } else { format!("\"{}\"", key.realm) }),
+                        key.password)).0,
                 ]).collect()
             } else { vec![] };
             // library key bytes versus the reference key derivation
